@@ -1,7 +1,10 @@
 (* Properties/C10.v — "The bit-field codec obeys its algebraic laws for every layout".
    Only statements; every proof is `exact <lemma>`.  All sizes, masks, offsets, values: no bound. *)
 From Coq Require Import String Permutation.
+From Coq Require Import ZArith List.
 From PS Require Import Base.Bytes Base.Result Model.Converter Proofs.Codec Proofs.Layout.
+From PS Require Import Model.Py Proofs.PyLemmas Proofs.PyConverter Gen.PyConv Gen.Tables.
+Import ListNotations.
 
 (* integer <-> bytes *)
 Theorem C10_int_to_bytes_to_int : forall v n, ba_to_int (int_to_ba v n) = v mod 256 ^ N.of_nat n.
@@ -94,3 +97,48 @@ Example C10_example_valid :
   valid_dict 32 ex_layout [("nine", VI (N.ones 72)); ("wide36", VI (2 ^ 35)); ("blob", VB [1; 2; 255]);
                            ("words", VB [1; 2; 3; 4]); ("flag3", VI 5)] = true.
 Proof. vm_compute. reflexivity. Qed.
+
+
+(* ---------------------------------------------------------------------------------------------------------------------
+   The model above IS the code: pyscsi/utils/converter.py is REGENERATED on every run into programs of the small Python
+   (Gen/PyConv.v, conv_program), and under the semantics of Model/Py.v those programs compute exactly what Base/Bytes.v and
+   Model/Converter.v compute — for every value, width, byte string, well-formed layout and dictionary (Proofs/PyConverter.v). *)
+
+Theorem C10_py_nothing_unknown : conv_unknown = [] /\ length conv_program = 4%nat.
+Proof. vm_compute. split; reflexivity. Qed.
+
+Theorem C10_py_int_to_ba : forall (v : N) (n : Z) f, (0 <= n <= 65536)%Z -> (1 <= f)%nat ->
+  call_fun [] conv_program f "converter.scsi_int_to_ba" [PInt (Z.of_N v); PInt n] = Ok (PBytes (int_to_ba v (Z.to_nat n))).
+Proof. exact py_int_to_ba. Qed.
+
+Theorem C10_py_ba_to_int : forall (b : bytes) f, (Z.of_nat (length b) <= 65536)%Z -> (1 <= f)%nat ->
+  call_fun [] conv_program f "converter.scsi_ba_to_int" [PBytes b] = Ok (PInt (Z.of_N (ba_to_int b))).
+Proof. exact py_ba_to_int. Qed.
+
+(* decode_bits(data, TABLE, result): the dictionary it leaves in `result` is the model's decode_bits, merged into what was there *)
+Theorem C10_py_decode_bits : forall (L : layout) (data : bytes) (cur : list (string * pv)) f r,
+  forallb (fun kf => fdesc_py_ok (snd kf)) L = true -> names_distinct (map fst L) = true ->
+  Forall (fun kf => (fdesc_fuel (snd kf) <= f)%nat) L ->
+  decode_bits data L = Ok r ->
+  call_fun [] conv_program (S f) "converter.decode_bits" [PBytes data; pv_of_layout L; PDict cur]
+  = Ok (PDict (dict_update cur (dict_of_decoded r))).
+Proof. exact py_decode_bits_refines. Qed.
+
+(* encode_dict(data_dict, TABLE, result): the buffer it leaves in `result` is the model's encode_dict *)
+Theorem C10_py_encode_dict : forall (L : layout) (dv : list (string * value)) (r r' : bytes) f,
+  forallb (fun kf => fdesc_py_ok (snd kf)) L = true -> Forall (fun kf => (fdesc_fuel (snd kf) <= f)%nat) L ->
+  names_distinct (map fst dv) = true -> values_ok dv -> bytes_ok r ->
+  encode_dict dv L r = Ok r' ->
+  call_fun [] conv_program (S f) "converter.encode_dict" [PDict (dict_of_decoded dv); pv_of_layout L; PBytes r] = Ok (PBytes r').
+Proof. exact py_encode_dict_refines. Qed.
+
+(* the hypotheses are met by every one of the library's own (regenerated) tables, with one fuel bound for all of them *)
+Theorem C10_py_every_table_in_scope : forall t L, In (t, L) all_tables ->
+  forallb (fun kf => fdesc_py_ok (snd kf)) L = true /\ names_distinct (map fst L) = true /\
+  forall f, (Z.to_nat 4200 <= f)%nat -> Forall (fun kf => (fdesc_fuel (snd kf) <= f)%nat) L.
+Proof.
+  assert (H : forallb (fun tl => forallb (fun kf => fdesc_py_ok (snd kf)) (snd tl) && names_distinct (map fst (snd tl))) all_tables = true)
+    by (vm_compute; reflexivity).
+  intros t L Hin. rewrite forallb_forall in H. specialize (H _ Hin). cbn [snd] in H. apply andb_prop in H. destruct H as [H1 H2].
+  split; [exact H1|]. split; [exact H2|]. intros f Hf. now apply fuel_bound.
+Qed.
